@@ -443,6 +443,12 @@ def mon_limits(ctx, conn):
                 viol(ctx, conn, "handlers-above-limit", dict(max=d["maxinflight"], limit=mcs), known_class="priority-created-stream")
         if out.startswith("ok strms="):
             d = dict((k, int(v)) for k, v in re.findall(r"(\w+)=(-?\d+)", out))
+            # slots: every running handler holds one (a cancelled stream keeps its slot until its handler returns), and
+            # with an empty table nothing but running handlers holds any
+            if "infl" in d and d["open"] < d["infl"]:
+                viol(ctx, conn, "handler-running-without-a-slot", dict(open=d["open"], handlers=d["infl"]))
+            if "infl" in d and d["strms"] == 0 and d["open"] != d["infl"]:
+                viol(ctx, conn, "slots-not-returned", dict(open=d["open"], handlers=d["infl"], table=0))
             if d.get("body", 0) > mrb:
                 viol(ctx, conn, "buffered-body-above-limit", dict(buffered=d["body"], limit=mrb))
             if d["strms"] > 2 * mcs + 2:
